@@ -170,6 +170,14 @@ def write_json_menus(config: kconfiglib.Kconfig, filename: str, write_deprecated
     result: List = []
     node_lookup: Dict = {}
 
+    def range_bound(sym: kconfiglib.Symbol, bound: kconfiglib.Symbol) -> Union[int, float]:
+        # Numeric value of a range bound of 'sym' (a number or another option); a bound without a
+        # valid value counts as 0, as where the range is enforced (Symbol.str_value).
+        if sym.type == kconfiglib.FLOAT:
+            return float(bound.str_value) if kconfiglib.is_float(bound.str_value) else 0.0
+        base = 16 if sym.type == kconfiglib.HEX else 10
+        return int(bound.str_value, base) if kconfiglib._is_base_n(bound.str_value, base) else 0
+
     def write_node(node: kconfiglib.MenuNode) -> None:
         try:
             json_parent = node_lookup[node.parent]["children"]
@@ -204,7 +212,9 @@ def write_json_menus(config: kconfiglib.Kconfig, filename: str, write_deprecated
                 if isinstance(sym, (kconfiglib.Symbol, kconfiglib.MenuNode)) and len(sym.ranges) > 0:
                     for min_range, max_range, cond_expr in sym.ranges:
                         if kconfiglib.expr_value(cond_expr):
-                            greatest_range = [min_range, max_range]
+                            # The first active range is the one in effect (see Symbol.str_value)
+                            greatest_range = [range_bound(sym, min_range), range_bound(sym, max_range)]
+                            break
                 new_json["range"] = greatest_range
 
         elif isinstance(node.item, kconfiglib.Symbol):
